@@ -1,4 +1,5 @@
-import PlasVerif.Proofs.Digest
+import PlasVerif.Proofs.DigestSec
+import PlasVerif.Proofs.Charsubs
 /-!
 # C07 — Parsing loses, duplicates or reorders no text and yields a well-formed tree
 
@@ -51,23 +52,65 @@ def txt (n : Nat) (c : List Nat) : Tree :=
 example : (parse [.node (secItem 1 1) .unset [], txt 2 [97], txt 3 [98], .node (secItem 4 2) .unset [], txt 5 [99],
                   .node (secItem 6 1) .unset [], txt 7 [100]]).map leavesL = some [1, 2, 3, 4, 5, 6, 7] := by decide
 
-/-- **Full conservation (no loss)** — stated, not proved here: on streams satisfying `clean`
-    (blank text and closing tokens carry no words, paragraph tokens and swallowed tokens have an
-    inert `digest`), the reading of the result *equals* the reading of the stream.
-    Missing: the invariant that `clean` is preserved by `paragraphs`/`norm`/`digest` (the filter of
-    blank paragraphs and the blanks skipped at list heads are the only places where the
-    subsequence of `parse_no_dup_no_reorder` can be strict).  Carried by the `digest` stream
-    (plain-character oracle on every recorded call) and by `doc7`. -/
-def digest_conserves_statement : Prop :=
-  ∀ (s out : List Tree), cleanL s = true → parse s = some out → leavesL out = leavesL s
+/-- **Conservation (no loss, no duplication, no reordering)** — for every stream satisfying the
+    decidable hypothesis `clean` (blank text and swallowed closers carry no word, paragraph tokens and
+    swallowed tokens have an inert digest, text nodes have no children; the driver evaluates it on every
+    recorded stream): whatever `t.digest(tokens)` absorbs, the reading of the node followed by the unread
+    stream is *exactly* the reading before the call.  No balance assumption, every fuel. -/
+theorem digest_conserves_step (f : Nat) (t : Tree) (s : List Tree) (t' : Tree) (s' : List Tree)
+    (ht : clean t = true) (hs : cleanL s = true) (h : digest f t s = some (t', s')) :
+    leaves t' ++ leavesL s' = leaves t ++ leavesL s :=
+  (digest_loop_eq f).1 t s t' s' ht hs h
 
-/-- `paragraphs` alone: grouping into paragraphs never duplicates or reorders (partial form of
-    `paragraphs_partition`; equality needs `clean` for the blank-paragraph filter). -/
-theorem paragraphs_partition_partial (force : Bool) (t : Tree) :
+/-- … and the result is again clean (the invariant the equality rests on) -/
+theorem digest_preserves_clean (f : Nat) (t : Tree) (s : List Tree) (t' : Tree) (s' : List Tree)
+    (ht : clean t = true) (hs : cleanL s = true) (h : digest f t s = some (t', s')) :
+    clean t' = true ∧ cleanL s' = true := by
+  obtain ⟨a, b⟩ := (digest_loop_P closed_clean f).1 t s t' s' ht (allP_clean.2 hs) h
+  exact ⟨a, allP_clean.1 b⟩
+
+/-- **`digest_conserves`**: the depth-first reading (arguments first, then children) of the parsed
+    tree is exactly the reading of the stream — every word once, in source order. -/
+theorem digest_conserves (s out : List Tree) (hs : cleanL s = true) (h : parse s = some out) :
+    leavesL out = leavesL s := by
+  have := top_eq _ [] s out (by simp [cleanL]) hs h
+  simpa [leavesL] using this
+
+/-- the same for an argument fragment (`expandTokens` + `normalize`) -/
+theorem fragment_conserves (cs : Bool) (s out : List Tree) (hs : cleanL s = true)
+    (h : parseFragment cs s = some out) : leavesL out = leavesL s := by
+  unfold parseFragment at h
+  cases hp : parse s with
+  | none => simp [hp] at h
+  | some ts =>
+    simp only [hp, Option.map_some, Option.some.injEq] at h
+    subst h
+    have hc : cleanL ts = true := allP_clean.1
+      (top_P closed_clean _ [] s ts (fun _ h => by cases h) (allP_clean.2 hs) hp)
+    rw [(normKids_ce cs .out ts [] hc (by simp)).2, digest_conserves s ts hs hp]
+    simp [srcs]
+
+/-- non-vacuity of the hypothesis: the section example above is a clean stream -/
+example : cleanL [.node (secItem 1 1) .unset [], txt 2 [97], txt 3 [98], .node (secItem 4 2) .unset [], txt 5 [99],
+                  .node (secItem 6 1) .unset [], txt 7 [100]] = true := by decide
+
+/-- **Fuel adequacy**: `parse` never runs out of fuel — the `2·|stream| + 3` it supplies suffices for
+    every stream, so the fuel parameter is not a hidden assumption of the theorems above. -/
+theorem parse_total (s : List Tree) : ∃ out, parse s = some out :=
+  top_tot _ [] s (Nat.le_refl _)
+
+/-- every `digest` call terminates with fuel `2·|stream| + 2` and never lengthens the stream -/
+theorem digest_total (f : Nat) (t : Tree) (s : List Tree) (hf : 2 * s.length + 2 ≤ f) :
+    ∃ t' s', digest f t s = some (t', s') ∧ s'.length ≤ s.length :=
+  (digest_loop_tot f).1 t s hf
+
+/-- **`paragraphs_partition`**: grouping into paragraphs neither drops nor reorders (clean element) -/
+theorem paragraphs_partition (force : Bool) (t : Tree) (hc : clean t = true) (he : t.it.elem = true) :
+    leaves (paragraphs force t) = leaves t := (paragraphs_ce force t hc he).2
+
+/-- without the hypothesis: never duplicates or reorders -/
+theorem paragraphs_no_dup (force : Bool) (t : Tree) :
     (leaves (paragraphs force t)).Sublist (leaves t) := paragraphs_sub force t
-
-def paragraphs_partition_statement : Prop :=
-  ∀ (force : Bool) (t : Tree), clean t = true → leaves (paragraphs force t) = leaves t
 
 /-- the regrouping itself (before the filter of blank paragraphs) is exact: the new paragraph list
     followed by what stays behind reads exactly like the children did -/
@@ -154,30 +197,64 @@ theorem sections_absorb_deeper : ∀ (f : Nat) (t : Tree) (dp : Bool) (s : List 
           · subst hk; simp only [it_setParent, hx']; omega)
         simpa using this
 
-/-- full clause of the property for sectioning units — stated, carried by `doc7` and the `digest` stream:
-    after `digest` a unit of level `l < ENDSECTIONS` holds only paragraphs and units of level in `(l, ENDSECTIONS)`.
-    Proved above: everything absorbed is strictly deeper (`sections_absorb_deeper`); missing: that
-    `paragraphs(force)` wraps every absorbed non-sectioning child (needs: what follows the first
-    sectioning child is again a sectioning unit, a property of what the *sub-unit's* loop left in the stream). -/
-def sections_nest_statement : Prop :=
-  ∀ (f : Nat) (t : Tree) (s : List Tree) (t' : Tree) (s' : List Tree), t.it.dk = .sec → t.it.level < endSectionsLevel → t.kids = [] →
-    (∀ x ∈ s, t.it.level < x.it.level → x.it.level < parLevel → x.it.dk = .sec ∧ x.kids = []) →
-    digest f t s = some (t', s') → ∀ k ∈ t'.kids, secKidOK t.it.level k = true
+/-- **`sections_nest`**: on a sectioning-skeleton stream (`secSkel`: below paragraph level only fresh
+    sectioning commands and document-level closers, everything else inert — text, paragraph tokens,
+    commands), a sectioning unit of level `l` ends up holding **only paragraphs and sectioning units of
+    level strictly between `l` and ENDSECTIONS** — whatever follows what, for every fuel.  Every unit of
+    the parsed tree is the result of such a call, so the units are nested by level. -/
+theorem sections_nest (f : Nat) (t : Tree) (s : List Tree) (t' : Tree) (s' : List Tree)
+    (hdk : t.it.dk = .sec) (hlo : documentLevel < t.it.level) (hk : t.kids = [])
+    (hs : ∀ x ∈ s, secSkel x = true) (h : digest f t s = some (t', s')) :
+    ∀ k ∈ t'.kids, secKidOK t.it.level k = true := by
+  cases f with
+  | zero => simp [digest] at h
+  | succ f =>
+    obtain ⟨t1, dp1, hl, rfl⟩ := digest_sec hdk h
+    have hit : t1.it = t.it := loop_it _ _ _ _ _ _ _ _ hl
+    obtain ⟨A, B, h1, h2, h3, _⟩ := sec_loop_shape f t false s t1 dp1 s' hlo hs
+      ⟨[], [], by simp [hk], by simp, by simp, by simp⟩ hl
+    cases t1 with
+    | node it p kids =>
+      simp only [Tree.kids] at h1
+      subst h1
+      rw [paragraphs_true_eq]
+      exact parResult_sec it p A B _ t.it.level (proto_level _) h2 h3
 
-/-- paragraphs never contain paragraphs — stated; the regrouping loop appends to the current paragraph
-    only items of level `> PAR` (see `parLoop`: `==PAR` starts a new one, `<PAR` stops); carried by `doc7`
-    and by the tree diff of the `digest` stream (levels are part of the dump). -/
-def par_no_par_statement : Prop :=
-  ∀ (s out : List Tree), cleanL s = true → (∀ t ∈ s, parNoPar t = true) → parse s = some out → parNoParL out = true
+/-- … and it stops exactly in front of the next item that is not deeper (or at the end of the stream) -/
+theorem sections_stop_at_not_deeper (f : Nat) (t : Tree) (s : List Tree) (t' : Tree) (s' : List Tree)
+    (hdk : t.it.dk = .sec) (h : digest f t s = some (t', s')) :
+    ∀ z, s'.head? = some z → z.it.level ≤ t.it.level := by
+  cases f with
+  | zero => simp [digest] at h
+  | succ f =>
+    obtain ⟨t1, dp1, hl, _⟩ := digest_sec hdk h
+    exact loop_sec_head f _ _ _ _ _ _ hl
 
-/-- parent links — stated; the model writes the label at every place the code assigns `parentNode`
-    and the driver prints for every node whether its label is its container (`+`/`-`), diffed against
-    `node.parentNode is container` on the real tree for every recorded parse call. -/
-def parent_labels_consistent_statement : Prop :=
-  ∀ (s out : List Tree), (∀ t ∈ s, labelsOK t = true) → parse s = some out → labelsL .out out = true
+/-- non-vacuity: the section example is a skeleton stream; its first unit holds a paragraph and a subsection -/
+example : ∀ x ∈ [txt 2 [97], txt 3 [98], .node (secItem 4 2) .unset [], txt 5 [99],
+                 .node (secItem 6 1) .unset [], txt 7 [100]], secSkel x = true := by decide
+example : ((digest 20 (.node (secItem 1 1) .unset []) [txt 2 [97], txt 3 [98], .node (secItem 4 2) .unset [], txt 5 [99],
+              .node (secItem 6 1) .unset [], txt 7 [100]]).map fun r => r.1.kids.map (·.it.level)) = some [101, 2] := by
+  decide
 
-/-- partial: the top-level loop labels everything it appends with the output container -/
-theorem parent_labels_top_partial : ∀ (f : Nat) (acc s out : List Tree), top f acc s = some out →
+/-- **Paragraphs never contain paragraphs**, at any depth of the parsed tree, for every clean stream
+    whose (possibly pre-digested) items satisfy it. -/
+theorem par_no_par (s out : List Tree) (hs : cleanL s = true) (hp : parNoParL s = true)
+    (h : parse s = some out) : parNoParL out = true := by
+  have := top_P closed_pnp _ [] s out (fun _ h => by cases h)
+    (fun t ht => ⟨(cleanL_iff _).1 hs t ht, (parNoParL_iff _).1 hp t ht⟩) h
+  exact (parNoParL_iff _).2 fun t ht => (this t ht).2
+
+/-- every `digest` call keeps the invariant -/
+theorem par_no_par_step (f : Nat) (t : Tree) (s : List Tree) (t' : Tree) (s' : List Tree)
+    (ht : clean t = true ∧ parNoPar t = true) (hs : ∀ x ∈ s, clean x = true ∧ parNoPar x = true)
+    (h : digest f t s = some (t', s')) : parNoPar t' = true :=
+  ((digest_loop_P closed_pnp f).1 t s t' s' ht hs h).1.2
+
+example : parNoParL [.node (secItem 1 1) .unset [], txt 2 [97], txt 3 [98]] = true := by decide
+
+/-- the top-level loop labels everything it appends with the output container -/
+theorem parent_labels_top : ∀ (f : Nat) (acc s out : List Tree), top f acc s = some out →
     (∀ t ∈ acc, t.parent = .out) → ∀ t ∈ out, t.parent = .out
   | 0, _, _, _, h, _ => by simp [top] at h
   | f + 1, acc, [], out, h, h0 => by simp only [top] at h; cases h; exact h0
@@ -186,12 +263,27 @@ theorem parent_labels_top_partial : ∀ (f : Nat) (acc s out : List Tree), top f
     split at h
     · cases h
     · rename_i x' r' heq
-      refine parent_labels_top_partial f _ _ _ h ?_
+      refine parent_labels_top f _ _ _ h ?_
       intro t ht
       simp only [List.mem_append, List.mem_singleton] at ht
       rcases ht with ht | ht
       · exact h0 t ht
       · subst ht; cases x'; rfl
+
+/-- **Parent links**: in the parsed tree every node's parent label is the node that lists it, at
+    every depth, and the top nodes point to the output container — so following labels from any node
+    walks up through its actual containers to the document.  For every stream (no `clean` needed) whose
+    pre-digested items are consistently labelled. -/
+theorem parent_labels_consistent (s out : List Tree) (hl : ∀ t ∈ s, labelsOK t = true)
+    (h : parse s = some out) : labelsL .out out = true := by
+  have h1 := top_P closed_labels _ [] s out (fun _ h => by cases h) hl h
+  have h2 := parent_labels_top _ [] s out h (fun _ h => by cases h)
+  exact (labelsL_iff _ _).2 fun t ht => ⟨h2 t ht, h1 t ht⟩
+
+/-- `normalize` re-establishes the labels of a whole subtree whatever they were before -/
+theorem normalize_relabels (cs : Bool) (t : Tree) : labelsOK (norm cs t) = true := norm_labels cs t
+
+example : labelsL .out [.node (secItem 1 1) .out [(txt 2 [97]).setParent (.item 1)]] = true := by decide
 
 /-! ## the push-back iterator -/
 
@@ -331,15 +423,33 @@ theorem charsubs_applied_to_text_run (cs : Bool) (o : Ref) : ∀ (ks txt : List 
 /-- non-vacuity: `a--b` in a paragraph becomes one node `a–b`; inside a no-substitution node it stays -/
 example : allCharsL (normKids true .out [txt 1 [97], txt 2 [45], txt 3 [45], txt 4 [98]] []) = [97, 8211, 98] := by decide
 
-def charsubs_idempotent_statement : Prop := ∀ s : List Nat, applySubs charsubs (applySubs charsubs s) = applySubs charsubs s
+/-- **`charsubs_idempotent`**: substituting twice is substituting once (so the repeated `normalize`
+    calls the code makes on the same nodes — argument read, paragraph grouping, enclosing paragraph — are harmless) -/
+theorem charsubs_idempotent (s : List Nat) : applySubs charsubs (applySubs charsubs s) = applySubs charsubs s :=
+  PlasVerif.Proofs.Charsubs.applySubs_idempotent s
 
-/-- partial: idempotence on text whose substitution result has no quote/dash left
-    (missing: that `replaceAll` leaves no occurrence of its pattern, for the 8 patterns in sequence;
-    the `subs` stream compares the chain with the live `appendText` on all strings over
-    quote/dash/letter up to length 4 (quick) / 6 (thorough)). -/
-theorem charsubs_idempotent_partial (s : List Nat) (h : ∀ c ∈ applySubs charsubs s, trigger c = false) :
-    applySubs charsubs (applySubs charsubs s) = applySubs charsubs s :=
-  charsubs_plain _ h
+/-- **Substitution is complete**: after one pass no backtick, no apostrophe and no two adjacent hyphens
+    are left in the text, whatever the input -/
+theorem charsubs_complete (s : List Nat) :
+    96 ∉ applySubs charsubs s ∧ 39 ∉ applySubs charsubs s ∧ PlasVerif.Proofs.Charsubs.NoAdj 45 (applySubs charsubs s) :=
+  PlasVerif.Proofs.Charsubs.applySubs_done s
+
+example : applySubs charsubs (applySubs charsubs [96, 96, 97, 39, 39, 45, 45, 45, 45, 39]) =
+    applySubs charsubs [96, 96, 97, 39, 39, 45, 45, 45, 45, 39] := by decide
+
+/-! ## the clauses together -/
+
+/-- **C07 over the model**: every clean, consistently labelled stream without nested paragraphs is parsed
+    (no fuel assumption) into a forest whose depth-first reading (arguments, then children) is exactly the
+    reading of the stream, whose parent labels all name the actual container, and in which no paragraph
+    contains a paragraph.  (Sectioning: `sections_nest`; substitution: `charsubs_*`.) -/
+theorem parse_well_formed (s : List Tree) (hc : cleanL s = true) (hp : parNoParL s = true)
+    (hl : ∀ t ∈ s, labelsOK t = true) :
+    ∃ out, parse s = some out ∧ leavesL out = leavesL s ∧ labelsL .out out = true ∧ parNoParL out = true := by
+  obtain ⟨out, h⟩ := parse_total s
+  exact ⟨out, h, digest_conserves s out hc h, parent_labels_consistent s out hl h, par_no_par s out hc hp h⟩
+
+example : (∀ t ∈ [Tree.node (secItem 1 1) .unset [], txt 2 [97], txt 3 [98]], labelsOK t = true) := by decide
 
 /-! ## known finding `body-without-par` (as-is behaviour, kernel-checked) -/
 
